@@ -31,11 +31,26 @@ structure Inv1 (cl : Cluster) (s : Sys) : Prop where
   no_unknown : "C02 unknown-worker" ∉ s.env.viol
   no_gpu : "C02 gpu" ∉ s.env.viol
   no_double_add : s.err ≠ some "ValueError: double add"
+  /-- the task sequence of a queued task carried a `publish` set naming every declared output of the task -/
+  no_trim : ∀ w t, (w, t) ∈ s.env.queued → s.env.trimmed t = false
+
+/-- without a trimmed publish set on a queued task the system's environment step is the all-outputs step `envStep` -/
+theorem envStepP_eq (f : Sem) (j : Job) (e : Env) (es : EnvStep)
+    (h : ∀ w t, (w, t) ∈ e.queued → e.trimmed t = false) : envStepP f j e es = envStep f j e es := by
+  cases es with
+  | io i => rfl
+  | run w t =>
+    simp only [envStepP]
+    split
+    · rename_i ht
+      have hq : (w, t) ∉ e.queued := fun hq => by rw [h w t hq] at ht; cases ht
+      simp [envRunSpec, envStep, hq]
+    · rfl
 
 /-! ### effect of commands and environment steps on the fields Tier 1 talks about -/
 
-theorem mem_viol_taskSeq (j : Job) (cl : Cluster) (e : Env) (w : Worker) (t : Task) (m : String) :
-    m ∈ (applyCmd j cl e (.taskSeq w t)).viol ↔
+theorem mem_viol_taskSeq (j : Job) (cl : Cluster) (e : Env) (w : Worker) (t : Task) (m : String) {pb : List Ds} :
+    m ∈ (applyCmd j cl e (.taskSeq w t pb)).viol ↔
       m ∈ e.viol ∨ (cl.ids.contains w = false ∧ m = "C02 unknown-worker")
       ∨ ((!(e.queued.any (·.1 == w))) = false ∧ m = "C02 busy-worker")
       ∨ ((e.dispatchedE t == 0) = false ∧ m = "C02 double-dispatch")
@@ -67,25 +82,44 @@ theorem mem_viol_purge (j : Job) (cl : Cluster) (e : Env) (ds : Ds) (h : Host) (
   simp only [applyCmd, mem_flag, flag_queued, flag_ran, flag_delivered, outboundIO, flag_outstanding, or_assoc]
 
 /-- commands other than `taskSeq` do not touch the dispatch bookkeeping of the environment -/
-theorem applyCmd_queued_notTask (j : Job) (cl : Cluster) (e : Env) (cmd : Cmd) (h : ∀ w t, cmd ≠ .taskSeq w t) :
+theorem applyCmd_queued_notTask (j : Job) (cl : Cluster) (e : Env) (cmd : Cmd) (h : ∀ w t pb, cmd ≠ .taskSeq w t pb) :
     (applyCmd j cl e cmd).queued = e.queued ∧ (applyCmd j cl e cmd).dispatchedE = e.dispatchedE := by
   cases cmd with
-  | taskSeq w t => exact absurd rfl (h w t)
+  | taskSeq w t pb => exact absurd rfl (h w t pb)
   | transmit ds a b => simp [applyCmd]
   | fetch ds a => simp [applyCmd]
   | purge a ds => simp [applyCmd]
 
-theorem applyCmd_viol_c02_notTask (j : Job) (cl : Cluster) (e : Env) (cmd : Cmd) (h : ∀ w t, cmd ≠ .taskSeq w t)
+theorem applyCmd_trimmed_notTask (j : Job) (cl : Cluster) (e : Env) (cmd : Cmd) (h : ∀ w t pb, cmd ≠ .taskSeq w t pb) :
+    (applyCmd j cl e cmd).trimmed = e.trimmed ∧ (applyCmd j cl e cmd).pubOf = e.pubOf := by
+  cases cmd with
+  | taskSeq w t pb => exact absurd rfl (h w t pb)
+  | transmit ds a b => simp [applyCmd]
+  | fetch ds a => simp [applyCmd]
+  | purge a ds => simp [applyCmd]
+
+theorem applyCmds_trimmed_notTask (j : Job) (cl : Cluster) (cmds : List Cmd) (e : Env)
+    (h : ∀ cmd ∈ cmds, ∀ w t pb, cmd ≠ .taskSeq w t pb) :
+    (applyCmds j cl e cmds).trimmed = e.trimmed ∧ (applyCmds j cl e cmds).pubOf = e.pubOf := by
+  induction cmds generalizing e with
+  | nil => simp [applyCmds]
+  | cons c cs ih =>
+    have h1 := applyCmd_trimmed_notTask j cl e c (h c (by simp))
+    have := ih (applyCmd j cl e c) (fun cmd hm => h cmd (by simp [hm]))
+    simp only [applyCmds, List.foldl_cons] at this ⊢
+    exact ⟨by rw [this.1, h1.1], by rw [this.2, h1.2]⟩
+
+theorem applyCmd_viol_c02_notTask (j : Job) (cl : Cluster) (e : Env) (cmd : Cmd) (h : ∀ w t pb, cmd ≠ .taskSeq w t pb)
     (m : String) (hm : m = "C02 double-dispatch" ∨ m = "C02 busy-worker" ∨ m = "C02 unknown-worker" ∨ m = "C02 gpu")
     (hv : m ∉ e.viol) : m ∉ (applyCmd j cl e cmd).viol := by
   cases cmd with
-  | taskSeq w t => exact absurd rfl (h w t)
+  | taskSeq w t pb => exact absurd rfl (h w t pb)
   | transmit ds a b => rw [mem_viol_transmit]; rcases hm with rfl | rfl | rfl | rfl <;> simp [hv]
   | fetch ds a => rw [mem_viol_fetch]; rcases hm with rfl | rfl | rfl | rfl <;> simp [hv]
   | purge a ds => rw [mem_viol_purge]; rcases hm with rfl | rfl | rfl | rfl <;> simp [hv]
 
 theorem applyCmds_notTask (j : Job) (cl : Cluster) (cmds : List Cmd) (e : Env)
-    (h : ∀ cmd ∈ cmds, ∀ w t, cmd ≠ .taskSeq w t) :
+    (h : ∀ cmd ∈ cmds, ∀ w t pb, cmd ≠ .taskSeq w t pb) :
     (applyCmds j cl e cmds).queued = e.queued ∧ (applyCmds j cl e cmds).dispatchedE = e.dispatchedE ∧
     ∀ m, (m = "C02 double-dispatch" ∨ m = "C02 busy-worker" ∨ m = "C02 unknown-worker" ∨ m = "C02 gpu") →
       m ∉ e.viol → m ∉ (applyCmds j cl e cmds).viol := by
@@ -93,7 +127,7 @@ theorem applyCmds_notTask (j : Job) (cl : Cluster) (cmds : List Cmd) (e : Env)
   | nil => simp [applyCmds]
   | cons c cs ih =>
     have hc := h c (by simp)
-    have hcs : ∀ cmd ∈ cs, ∀ w t, cmd ≠ .taskSeq w t := fun cmd hm => h cmd (by simp [hm])
+    have hcs : ∀ cmd ∈ cs, ∀ w t pb, cmd ≠ .taskSeq w t pb := fun cmd hm => h cmd (by simp [hm])
     have h1 := applyCmd_queued_notTask j cl e c hc
     have := ih (applyCmd j cl e c) hcs
     simp only [applyCmds, List.foldl_cons] at this ⊢
@@ -138,6 +172,47 @@ theorem publishOutputs_frame (f : Sem) (j : Job) (w : Worker) (t : Task) (args :
     obtain ⟨h1, h2, h3, h4, h5, h6, h7, h8⟩ := this
     refine ⟨h1, h2, h3, h4, h5, h6, h7, ?_⟩
     rw [h8]; simp
+
+theorem publishList_trimmed (f : Sem) (w : Worker) (t : Task) (args : List Val) (l : List Ds) (e : Env) :
+    (publishList f w t args l e).trimmed = e.trimmed ∧ (publishList f w t args l e).pubOf = e.pubOf ∧
+    (publishList f w t args l e).queued = e.queued := by
+  unfold publishList
+  induction l generalizing e with
+  | nil => simp
+  | cons a l ih => simp only [List.foldl_cons]; rw [(ih _).1, (ih _).2.1, (ih _).2.2]; simp
+
+theorem publishOutputs_eq_list (f : Sem) (j : Job) (w : Worker) (t : Task) (args : List Val) (e : Env) :
+    publishOutputs f j w t args e = publishList f w t args (j.outputsOf t) e := rfl
+
+/-- an environment step changes neither the recorded publish sets nor the `trimmed` flags -/
+theorem envStep_trimmed (f : Sem) (j : Job) (e e' : Env) (es : EnvStep) (h : envStep f j e es = some e') :
+    e'.trimmed = e.trimmed ∧ e'.pubOf = e.pubOf := by
+  cases es with
+  | run w t =>
+    simp only [envStep] at h
+    split at h
+    · cases h
+      rw [publishOutputs_eq_list]
+      have := publishList_trimmed f w t ((j.inputs t).map (fun d => (e.present w.host d).getD "")) (j.outputsOf t)
+        { e with queued := e.queued.erase (w, t), ran := upd e.ran t true }
+      exact ⟨this.1, this.2.1⟩
+    · cases h
+  | io i =>
+    simp only [envStep] at h
+    split at h
+    · cases h
+    · rename_i o ho
+      cases o with
+      | transmit ds src tgt =>
+        dsimp only at h
+        split at h
+        · cases h; simp
+        · split at h <;> (cases h; exact ⟨rfl, rfl⟩)
+      | fetch ds src =>
+        dsimp only at h
+        split at h
+        · cases h; simp
+        · cases h; exact ⟨rfl, rfl⟩
 
 /-- what an environment step does to the fields Tier 1 talks about -/
 theorem envStep_tier1 (f : Sem) (j : Job) (e e' : Env) (es : EnvStep) (h : envStep f j e es = some e') :
@@ -209,7 +284,7 @@ theorem envStep_tier1 (f : Sem) (j : Job) (e e' : Env) (es : EnvStep) (h : envSt
 /-! ### preservation -/
 
 theorem inv1_init (j : Job) (cl : Cluster) (hw : cl.ids.Nodup) : Inv1 cl (Sys.init j cl) := by
-  refine ⟨once_init j cl, ?_, ?_, ?_, ?_, ?_, ?_, ?_, ?_, ?_, ?_, ?_, ?_, ?_, ?_, ?_, ?_, ?_, ?_⟩
+  refine ⟨once_init j cl, ?_, ?_, ?_, ?_, ?_, ?_, ?_, ?_, ?_, ?_, ?_, ?_, ?_, ?_, ?_, ?_, ?_, ?_, ?_⟩
   all_goals simp_all [Sys.init, initCtl, Env.init, Sys.inFlight, Sys.todoPairs]
 
 /-- a step that changes neither the dispatch/worker bookkeeping nor the C02 monitors -/
@@ -221,10 +296,12 @@ theorem Inv1.congr {cl : Cluster} {s s' : Sys} (h : Inv1 cl s)
     (hphase : (s'.phase ≠ .assigning → s'.phase ≠ .planning → s'.phase ≠ .crashed → s.todo = []))
     (hviol : ∀ m, (m = "C02 double-dispatch" ∨ m = "C02 busy-worker" ∨ m = "C02 unknown-worker" ∨ m = "C02 gpu") →
       m ∉ s.env.viol → m ∉ s'.env.viol)
-    (herr : s'.err ≠ some "ValueError: double add") : Inv1 cl s' := by
+    (herr : s'.err ≠ some "ValueError: double add")
+    (htr : s'.env.trimmed = s.env.trimmed := by rfl) : Inv1 cl s' := by
   have hfl : ∀ w t, s'.inFlight w t ↔ s.inFlight w t := by
     intro w t; simp only [Sys.inFlight, Sys.todoPairs, hong, htodo]
-  refine ⟨honce, ?_, ?_, ?_, ?_, ?_, ?_, ?_, ?_, ?_, ?_, ?_, ?_, ?_, ?_, ?_, ?_, ?_, herr⟩
+  refine ⟨honce, ?_, ?_, ?_, ?_, ?_, ?_, ?_, ?_, ?_, ?_, ?_, ?_, ?_, ?_, ?_, ?_, ?_, herr,
+    fun w t hq' => by rw [htr]; rw [hq] at hq'; exact h.no_trim w t hq'⟩
   · intro t; rw [hde, hd]; exact h.disp_eq t
   · rw [hidle]; exact h.idle_nodup
   · intro w hw t; rw [hfl]; rw [hidle] at hw; exact h.idle_free w hw t
